@@ -75,7 +75,22 @@ def make_script(cfg, r, lay):
 def prepare(lay, cfg):
     vp.rmtree(lay.root)
     lay.create(NAMES)
+    if cfg.get("real_build_file"):
+        # the layout `cargo libcnb package` produces: bin/build is the executable itself, every other name is a link to it
+        import shutil
+        bindir = os.path.join(lay.bp, "bin")
+        for n in NAMES:
+            os.unlink(os.path.join(bindir, n))
+        master = os.path.join(os.path.dirname(lay.root), ".vpbp-copy-%d" % os.getpid())      # one copy per worker, hard-linked per case
+        if not os.path.exists(master):
+            shutil.copy2(os.path.join(vp.BIN, "vpbp"), master)
+        os.link(master, os.path.join(bindir, "build"))
+        for n in NAMES:
+            if n != "build":
+                os.symlink("build", os.path.join(bindir, n))
     t = toml_text(cfg["toml"])
+    if cfg["toml"] == "bpdir-unset":
+        t = phase.BP_TOML_OK          # the directory is a perfectly good buildpack; only the variable that names it is missing
     if t is not None:
         with open(os.path.join(lay.bp, "buildpack.toml"), "w") as f:
             f.write(t)
@@ -152,6 +167,7 @@ def cell(cfg):
 
 def run_cfg(lay, cfg, idx, seed, sh):
     r = vp.rng(seed, "c05", idx)
+    cfg = dict(cfg, real_build_file=cfg.get("real_build_file", idx % 3 == 1))
     prepare(lay, cfg)
     script = make_script(cfg, r, lay)
     b0 = script.get("build")
